@@ -519,6 +519,51 @@ def run(chk):
             return False, "must complete exactly once", [], b.span
         if not common.has_root(b.origin(cc[0].args[1]), "param", 2):
             return False, "does not pass the span on", [], cc[0].loc
+        # the two levels are applied independently: whether one is set depends on its own field only (a span may carry both a regular
+        # level and a panic level), and the completion that runs has been through both
+        def fields_of(o, d=0):
+            acc = set()
+            if d > 20:
+                return acc
+            if o[0] == "field" and o[1][0] == "param" and o[1][1] == 1:
+                acc.add(o[2])
+            if o[0] == "call":
+                for a in o[1].args:
+                    acc |= fields_of(b.origin(a), d + 1)
+            elif o[0] in ("field", "downcast", "index", "cast", "discr", "unop", "ref", "deref", "copy"):
+                acc |= fields_of(o[1] if o[0] != "unop" else o[2], d + 1)
+            elif o[0] == "binop":
+                acc |= fields_of(o[2], d + 1) | fields_of(o[3], d + 1)
+            elif o[0] == "phi":
+                for x in o[1]:
+                    acc |= fields_of(x, d + 1)
+            elif o[0] == "agg":
+                for x in o[2]:
+                    acc |= fields_of(x, d + 1)
+            return acc
+        for c, own in ((wl[0], "lvl"), (wp[0], "panic_lvl")):
+            for gbb, vals, n in b.guards_of(c.bb):
+                dep = fields_of(b.switch_origin(gbb)) - {own}
+                if dep & {"lvl", "panic_lvl"}:
+                    return False, ("%s is applied only under a condition on self.%s: a span that sets both a level and a panic level loses one "
+                                   "of them" % (c.callee.get("name"), sorted(dep)[0])), [], c.loc
+        final = b.origin(cc[0].args[0])
+        seen_calls = set()
+        def chain(o, d=0):
+            if d > 30:
+                return
+            if o[0] == "call":
+                seen_calls.add(o[1].callee.get("name"))
+                if o[1].args:
+                    chain(b.origin(o[1].args[0]), d + 1)
+            elif o[0] == "phi":
+                for x in o[1]:
+                    chain(x, d + 1)
+            elif o[0] in ("field", "downcast", "ref", "deref", "copy"):
+                chain(o[1], d + 1)
+        chain(final)
+        if not {"with_lvl", "with_panic_lvl"} <= seen_calls:
+            return False, "the completion that runs has not been through both with_lvl and with_panic_lvl (%s)" % sorted(seen_calls), [], cc[0].loc
         return True, "", [wl[0].loc, wp[0].loc, cc[0].loc]
     chk.ob("C05.hooks:__PrivateCompleteSpan::complete", "the macro completion feeds lvl to with_lvl and panic_lvl to with_panic_lvl and completes once", hook_complete)
 
